@@ -1,8 +1,16 @@
+#[cfg(not(transparencies_stretto_verif))]
 use parking_lot::RwLock;
+#[cfg(transparencies_stretto_verif)]
+use stretto_sim_rt::sync::RwLock;
 use std::collections::{hash_map::RandomState, HashMap};
 use std::hash::BuildHasher;
 use std::ops::{Deref, DerefMut};
+#[cfg(transparencies_stretto_verif)]
+use std::time::Duration;
+#[cfg(not(transparencies_stretto_verif))]
 use std::time::{Duration, SystemTime, UNIX_EPOCH};
+#[cfg(transparencies_stretto_verif)]
+use stretto_sim_rt::time::{SystemTime, UNIX_EPOCH};
 
 use crate::CacheError;
 
@@ -209,6 +217,31 @@ impl<S: BuildHasher + Clone + 'static> ExpirationMap<S> {
 
     pub fn hasher(&self) -> S {
         self.hasher.clone()
+    }
+}
+
+#[cfg(transparencies_stretto_verif)]
+impl Time {
+    /// (creation instant in ns since the Unix epoch, ttl in ns)
+    pub fn verif_parts(&self) -> (u64, u64) {
+        (self.created_at.as_ns(), self.d.as_nanos() as u64)
+    }
+}
+
+#[cfg(transparencies_stretto_verif)]
+impl<S: BuildHasher + Clone + 'static> ExpirationMap<S> {
+    pub(crate) fn verif_buckets(&self) -> Option<Vec<(i64, Vec<(u64, u64)>)>> {
+        let g = self.buckets.0.try_read()?;
+        let mut out: Vec<(i64, Vec<(u64, u64)>)> = g
+            .iter()
+            .map(|(b, m)| {
+                let mut v: Vec<(u64, u64)> = m.map.iter().map(|(k, c)| (*k, *c)).collect();
+                v.sort();
+                (*b, v)
+            })
+            .collect();
+        out.sort();
+        Some(out)
     }
 }
 
